@@ -129,13 +129,32 @@ def props_file(prop):
     return os.path.join(LEAN, "Sck", "Props", f"{prop}.lean")
 
 
-def obligations_of(prop):
-    """theorem names stated in Props/<prop>.lean (the property file holds nothing else)"""
-    path = props_file(prop)
-    if not os.path.exists(path):
+def props_modules(prop):
+    """Props/<prop>.lean plus companion files Props/<prop><Suffix>.lean (e.g. C16Real)"""
+    d = os.path.join(LEAN, "Sck", "Props")
+    if not os.path.isdir(d):
         return []
-    src = strip_comments(open(path).read())
-    return re.findall(r"^\s*theorem\s+([A-Za-z_][A-Za-z0-9_.']*)", src, re.M)
+    return sorted(f[:-5] for f in os.listdir(d) if f.endswith(".lean") and re.fullmatch(re.escape(prop) + r"[A-Za-z]*", f[:-5]))
+
+
+def obligations_of(prop):
+    """theorem names stated in the property files (which hold nothing but property theorems and examples);
+    names are qualified by the enclosing `namespace`, if any"""
+    names = []
+    for mod in props_modules(prop):
+        src = strip_comments(open(os.path.join(LEAN, "Sck", "Props", mod + ".lean")).read())
+        ns = []
+        for line in src.split("\n"):
+            m = re.match(r"^\s*namespace\s+(\S+)", line)
+            if m:
+                ns.append(m.group(1)); continue
+            m = re.match(r"^\s*end\s+(\S+)", line)
+            if m and ns and ns[-1] == m.group(1):
+                ns.pop(); continue
+            m = re.match(r"^\s*(?:private\s+|protected\s+)?theorem\s+([A-Za-z_][A-Za-z0-9_.']*)", line)
+            if m:
+                names.append(".".join(ns + [m.group(1)]))
+    return names
 
 
 def lean_sources_hash():
@@ -178,7 +197,8 @@ def proof_audit(prop, thorough=False):
     if cached is None:
         audit = os.path.join(OUT, f"Audit_{prop}.lean")
         with open(audit, "w") as fh:
-            fh.write(f"import Sck.Props.{prop}\n")
+            for mod in props_modules(prop):
+                fh.write(f"import Sck.Props.{mod}\n")
             for n in names:
                 fh.write(f"#print axioms {n}\n")
         p = subprocess.run(["lake", "env", "lean", audit], cwd=LEAN, capture_output=True, text=True)
@@ -203,7 +223,7 @@ def proof_audit(prop, thorough=False):
         else:
             res["discharged"].append(n)
     if thorough and names:
-        p = subprocess.run(["lake", "env", "leanchecker", f"Sck.Props.{prop}"], cwd=LEAN, capture_output=True, text=True)
+        p = subprocess.run(["lake", "env", "leanchecker"] + [f"Sck.Props.{m}" for m in props_modules(prop)], cwd=LEAN, capture_output=True, text=True)
         res["leanchecker"] = "ok" if p.returncode == 0 else (p.stdout + p.stderr)[-500:]
         if p.returncode != 0:
             res["problems"].append("leanchecker rejected Sck.Props." + prop)
